@@ -237,7 +237,7 @@ func ruleWKBTables(c *Ctx) {
 				continue
 			}
 			bo, ok := ifi.Cond.(*ssa.BinOp)
-			if !ok || bo.Op != token.EQL {
+			if !ok || (bo.Op != token.EQL && bo.Op != token.NEQ) {
 				continue
 			}
 			nt, ok := bo.X.Type().(*types.Named)
@@ -254,7 +254,7 @@ func ruleWKBTables(c *Ctx) {
 				little, _ = constant.Uint64Val(lc.Val())
 			}
 			arms := [2]string{"LittleEndian", "BigEndian"}
-			if cv != little {
+			if (cv != little) != (bo.Op == token.NEQ) {
 				arms = [2]string{"BigEndian", "LittleEndian"}
 			}
 			nArms++
@@ -450,14 +450,18 @@ func ruleScanCoercion(c *Ctx) {
 						continue
 					}
 					bo, ok := ifi.Cond.(*ssa.BinOp)
-					if !ok || bo.Op != token.EQL {
+					if !ok || (bo.Op != token.EQL && bo.Op != token.NEQ) {
 						continue
 					}
 					lc, ok := bo.X.(*ssa.Call)
 					if !ok || !isBuiltin(lc, "len") || lc.Call.Args[0] != ia.X {
 						continue
 					}
-					if v, ok := constUint(bo.Y); ok && v == 1 && gb.Succs[0].Dominates(b) {
+					eqSucc := 0
+					if bo.Op == token.NEQ {
+						eqSucc = 1
+					}
+					if v, ok := constUint(bo.Y); ok && v == 1 && gb.Succs[eqSucc].Dominates(b) {
 						guarded = true
 					}
 				}
